@@ -14,6 +14,13 @@ Proof. apply obeq_eq. reflexivity. Qed.
 Lemma res_eqb_eq a b : res_eqb a b = true -> a = b.
 Proof. destruct a, b; simpl; congruence. Qed.
 
+Lemma res_ok_is_ok st m o : res_ok st m o = true -> res_is_ok o = res_is_ok m.
+Proof.
+  unfold res_ok. intros H. apply orb_true_iff in H as [H|H]; [apply res_eqb_eq in H; subst; reflexivity|].
+  apply andb_true_iff in H as [H Ho]. apply andb_true_iff in H as [_ Hm].
+  apply res_eqb_eq in Ho, Hm. subst. reflexivity.
+Qed.
+
 (* the relation between a model state and the oracle's trace state *)
 Definition R (s : sys) (o : ostate) : Prop :=
   rec_bytes (store s) = o_st o /\ forall c, observed s c = o_obs o c.
@@ -23,13 +30,13 @@ Proof. intros H x. unfold upd. destruct (x =? c); [reflexivity|apply H]. Qed.
 
 Lemma orc_step_sound st0 s o x :
   Inv st0 s -> R s o ->
-  o_res (run_op s (s_label x)) = s_res x ->
+  res_is_ok (s_res x) = res_is_ok (o_res (run_op s (s_label x))) ->
   (match s_label x with LGet _ _ _ => o_observed (run_op s (s_label x)) | _ => None end) = s_got x ->
   rec_bytes (store (step s (s_label x))) = s_stored x ->
   exists o', orc_step o x = Some o' /\ R (step s (s_label x)) o'.
 Proof.
   intros I [Rs Ro] Hres Hgot Hst.
-  unfold orc_step. rewrite <- Hst, <- Hres, <- Rs, <- Hgot. clear Hst Hres Hgot.
+  unfold orc_step. rewrite <- Hst, Hres, <- Rs, <- Hgot. clear Hst Hres Hgot.
   destruct (s_label x) as [c e t|c h b e t|c h b e t|c]; unfold step; cbn [run_op lab_cid store observed];
     [| | |cbn [o_store o_observed]; rewrite obeq_refl; eexists; (split; [reflexivity|]); split; cbn [o_st o_obs]; [reflexivity|exact Ro]].
   - (* Get *)
@@ -85,7 +92,7 @@ Proof.
   cbn [c14_run] in C.
   apply andb_true_iff in C as [C Ctl]. apply andb_true_iff in C as [C _]. apply andb_true_iff in C as [C Hst].
   apply andb_true_iff in C as [C Hgot]. apply andb_true_iff in C as [C _].
-  apply res_eqb_eq in C. apply obeq_eq in Hst. apply obeq_eq in Hgot.
+  apply res_ok_is_ok in C. apply obeq_eq in Hst. apply obeq_eq in Hgot.
   destruct (orc_step_sound st0 s o x I Rr C Hgot Hst) as [o' [E R']].
   cbn [orc_run]. rewrite E. eapply IH; [apply inv_step, I|exact R'|assumption].
 Qed.
